@@ -300,6 +300,9 @@ func wantReplies(c *Case) int {
 func check05(c *Case, o *Obs, rec Rec) (vs []viol, inconclusive string) {
 	sc := &c.Script
 	pc := keyProto(c)
+	if c.Target != "" {
+		pc += "@" + c.Target
+	}
 	preCls := "" // metadata call the handler made before failing
 	switch {
 	case sc.Pre == "set" || len(sc.Hdr) > 0 && !sc.SendHdr:
@@ -585,6 +588,9 @@ func (g *c05Runner) exec(c *Case, label string) {
 	r := g.r
 	r.Eval(1)
 	r.Count("rpcs_"+protoFamily(c.Proto), 1)
+	if c.Target == "proxy" {
+		r.Count("rpcs_to_proxied_backend", 1)
+	}
 	if rec.Ran {
 		r.Count("handler_invocations", 1)
 	}
@@ -614,7 +620,7 @@ func (g *c05Runner) exec(c *Case, label string) {
 		case c.Script.Code > 0:
 			cc = "code-in-range"
 		}
-		r.Distinct(fmt.Sprintf("%s/%s/%s/after=%d/%s/%s/details=%v/%s", protoFamily(c.Proto), c.Codec, c.Method, c.Script.Replies, cc, msgShape(c.Script.Msg)+sizeClass(c.Script.Msg), c.Script.Details, c.Kind+"/pre="+c.Script.Pre+"/hdr="+fmt.Sprint(len(c.Script.Hdr) > 0, c.Script.SendHdr, len(c.Script.Trl) > 0)))
+		r.Distinct(fmt.Sprintf("%s%s/%s/%s/after=%d/%s/%s/details=%v/%s", c.Target+":", protoFamily(c.Proto), c.Codec, c.Method, c.Script.Replies, cc, msgShape(c.Script.Msg)+sizeClass(c.Script.Msg), c.Script.Details, c.Kind+"/pre="+c.Script.Pre+"/hdr="+fmt.Sprint(len(c.Script.Hdr) > 0, c.Script.SendHdr, len(c.Script.Trl) > 0)))
 	}
 	for _, v := range vs {
 		r.Violate(v.key, v.what, c)
@@ -628,7 +634,7 @@ func (g *c05Runner) exec(c *Case, label string) {
 
 // RunC05 is the status / error fidelity check.
 func RunC05(r *mon.Run) {
-	r.Rule = "a scripted handler behind a real Mux returns status (code, message, optional 2 details) before any reply or after 1 / 3 replies; one client per protocol observes the outcome: HTTP JSON/protobuf and Twirp (in-process and HTTP/1 socket), grpc-go over h2c, raw gRPC frames in-process and over h2c, gRPC-web binary/text (in-process and HTTP/1 socket), WebSocket (socket). Cases = (all 22 codes x 3 base messages) + (2-3 codes x every message of the message set: empty, ASCII, single bytes embedded in text, '%' at start/middle/end, multi-byte tails, 1 KiB, 70 KiB, 123/124-byte close-frame boundary, seeded random mixes of ASCII / '%' / control / multi-byte pieces), each with and without details, on every protocol x codec x method x reply-count variant, plus a class where the handler calls SetHeader / SendHeader / SetTrailer with custom metadata at entry or right before it returns the status, plus a small class where the call's deadline has expired before the handler returns. An execution is non-trivial when the scripted handler ran; distinct = (protocol, codec, method, replies before status, code class, message shape, details?)"
+	r.Rule = "a scripted handler behind a real Mux returns status (code, message, optional 2 details) before any reply or after 1 / 3 replies; one client per protocol observes the outcome: HTTP JSON/protobuf and Twirp (in-process and HTTP/1 socket), grpc-go over h2c, raw gRPC frames in-process and over h2c, gRPC-web binary/text (in-process and HTTP/1 socket), WebSocket (socket). Cases = (all 22 codes x 3 base messages) + (2-3 codes x every message of the message set: empty, ASCII, single bytes embedded in text, '%' at start/middle/end, multi-byte tails, 1 KiB, 70 KiB, 123/124-byte close-frame boundary, seeded random mixes of ASCII / '%' / control / multi-byte pieces), each with and without details, on every protocol x codec x method x reply-count variant, plus a class where the handler calls SetHeader / SendHeader / SetTrailer with custom metadata at entry or right before it returns the status, plus a small class where the call's deadline has expired before the handler returns. Every class runs against the handler registered on the mux and (quick: reduced matrix) against the same handler on a real grpc.Server back-end that a second mux proxies through RegisterConn (codes up to 2^31-1, no WebSocket). An execution is non-trivial when the scripted handler ran; distinct = (target, protocol, codec, method, replies before status, code class, message shape, details?)"
 	r.Floor = 150
 	env, err := newEnv()
 	if err != nil {
@@ -649,48 +655,80 @@ func RunC05(r *mon.Run) {
 		sweepCodes = []uint32{1, 5, 16}
 		base = append(base, msgIn{"naïve café ✓", "utf8-tail"}, msgIn{"ab\ncd", "byte-0a"}, msgIn{repeatTo("one KiB of ascii text; ", 1024), "1KiB"})
 	}
-	for _, v := range c05Variants(r.Thorough()) {
-		one := func(code uint32, m msgIn, det bool) {
-			c := &Case{Kind: "C05", Proto: v.proto, Codec: v.codec, Method: v.method, Class: m.label,
-				Script: Script{Code: code, Msg: m.s, Details: det, Replies: v.replies}}
-			if code == 0 && v.method != "Echo" && v.replies == 0 {
-				c.Script.Replies = 2 // successful stream
+	// every case runs against the locally registered handler and against the
+	// same handler on a grpc.Server back-end proxied through RegisterConn
+	// (quick: a reduced matrix for the proxied target)
+	sockTwin := func(p string) bool { return strings.HasSuffix(p, "-sock") }
+	for _, target := range []string{"", "proxy"} {
+		reduced := target == "proxy" && !r.Thorough()
+		for _, v := range c05Variants(r.Thorough()) {
+			if reduced && (sockTwin(v.proto) || v.codec == "json" && v.proto != "http" && v.proto != "twirp" && v.proto != "grpc") {
+				continue
 			}
-			g.exec(c, m.label)
-		}
-		for _, code := range allCodes {
-			for _, m := range base {
-				if code == 0 && m.label != "ascii" {
-					continue // success: the message is not part of the outcome
+			if target == "proxy" && v.proto == "ws" {
+				// a WebSocket call to a proxied method never reaches the back-end:
+				// the upgrade's connection headers are forwarded as metadata and the
+				// back-end resets the stream (outside this property: no handler runs)
+				continue
+			}
+			one := func(code uint32, m msgIn, det bool) {
+				if target == "proxy" && code > math.MaxInt32 {
+					return // the grpc-go hop cannot carry a grpc-status above 2^31-1
 				}
-				for _, det := range []bool{false, true} {
-					if code == 0 && det {
+				c := &Case{Kind: "C05", Proto: v.proto, Codec: v.codec, Method: v.method, Class: m.label, Target: target,
+					Script: Script{Code: code, Msg: m.s, Details: det, Replies: v.replies}}
+				if code == 0 && v.method != "Echo" && v.replies == 0 {
+					c.Script.Replies = 2 // successful stream
+				}
+				g.exec(c, m.label)
+			}
+			for _, code := range allCodes {
+				for _, m := range base {
+					if code == 0 && m.label != "ascii" {
+						continue // success: the message is not part of the outcome
+					}
+					if reduced && code != 0 && m.label != "pct-middle" {
 						continue
 					}
-					one(code, m, det)
+					for _, det := range []bool{false, true} {
+						if code == 0 && det || reduced && det != (code%2 == 1) {
+							continue
+						}
+						one(code, m, det)
+					}
 				}
 			}
-		}
-		for _, code := range sweepCodes {
-			for _, m := range msgs {
-				heavy := len(m.s) > 4096
-				if heavy && v.replies == 3 {
-					continue
-				}
-				if heavy && strings.HasPrefix(v.proto, "grpcweb") && strings.HasSuffix(v.proto, "-sock") {
-					// Go's HTTP/1 client refuses chunked trailer sections above 4 KiB
-					// ("suspiciously long trailer"): a limit of the client, the
-					// in-process variants carry the long messages
-					continue
-				}
-				for _, det := range []bool{false, true} {
-					if det && (strings.HasPrefix(m.label, "byte-") && !r.Thorough()) {
+			for ci, code := range sweepCodes {
+				for _, m := range msgs {
+					if reduced && (ci > 0 && code != 1 || strings.HasPrefix(m.label, "byte-") && m.label != "byte-0a" && m.label != "byte-7f") {
 						continue
 					}
-					if m.label == "random" && (det != (len(m.s)%2 == 0) || code != sweepCodes[0]) {
+					heavy := len(m.s) > 4096
+					if heavy && v.replies == 3 {
 						continue
 					}
-					one(code, m, det)
+					if heavy && strings.HasPrefix(v.proto, "grpcweb") && strings.HasSuffix(v.proto, "-sock") {
+						// Go's HTTP/1 client refuses chunked trailer sections above 4 KiB
+						// ("suspiciously long trailer"): a limit of the client, the
+						// in-process variants carry the long messages
+						continue
+					}
+					for _, det := range []bool{false, true} {
+						if det && (strings.HasPrefix(m.label, "byte-") && !r.Thorough()) {
+							continue
+						}
+						if m.label == "random" && (det != (len(m.s)%2 == 0) || code != sweepCodes[0]) {
+							continue
+						}
+						one(code, m, det)
+					}
+				}
+			}
+			if target == "proxy" && !r.Thorough() {
+				// Canceled from a back-end is a class of its own for a proxy (it is
+				// also what a vanished client looks like): always swept
+				for _, m := range base {
+					one(1, m, true)
 				}
 			}
 		}
@@ -703,28 +741,36 @@ func RunC05(r *mon.Run) {
 		preCodes = allCodes[1:]
 	}
 	custom := []KV{{K: "x-c05", V: [][]byte{[]byte("v1"), []byte("v 2")}}, {K: "x-c05-bin", V: [][]byte{{0, 0xff, 0xfb, '%'}}}}
-	for _, v := range c05Variants(r.Thorough()) {
-		for _, code := range preCodes {
-			for _, op := range []string{"set", "send", "trl"} {
-				for _, at := range []string{"entry", "before-return"} {
-					if at == "before-return" && v.replies == 0 {
-						continue // same point as "entry"
-					}
-					c := &Case{Kind: "C05", Proto: v.proto, Codec: v.codec, Method: v.method, Class: "metadata-" + op + "-at-" + at,
-						Script: Script{Code: code, Msg: "50% done ✓", Details: code%2 == 1, Replies: v.replies}}
-					if at == "before-return" {
-						c.Script.Pre = op
-					} else {
-						switch op {
-						case "set":
-							c.Script.Hdr = custom
-						case "send":
-							c.Script.Hdr, c.Script.SendHdr = custom, true
-						default:
-							c.Script.Trl = custom
+	for _, target := range []string{"", "proxy"} {
+		for _, v := range c05Variants(r.Thorough()) {
+			if target == "proxy" && (!r.Thorough() && sockTwin(v.proto) || v.proto == "ws") {
+				continue
+			}
+			for ci, code := range preCodes {
+				if target == "proxy" && (code > math.MaxInt32 || !r.Thorough() && ci > 1) {
+					continue
+				}
+				for _, op := range []string{"set", "send", "trl"} {
+					for _, at := range []string{"entry", "before-return"} {
+						if at == "before-return" && v.replies == 0 {
+							continue // same point as "entry"
 						}
+						c := &Case{Kind: "C05", Proto: v.proto, Codec: v.codec, Method: v.method, Class: "metadata-" + op + "-at-" + at, Target: target,
+							Script: Script{Code: code, Msg: "50% done ✓", Details: code%2 == 1, Replies: v.replies}}
+						if at == "before-return" {
+							c.Script.Pre = op
+						} else {
+							switch op {
+							case "set":
+								c.Script.Hdr = custom
+							case "send":
+								c.Script.Hdr, c.Script.SendHdr = custom, true
+							default:
+								c.Script.Trl = custom
+							}
+						}
+						g.exec(c, c.Class)
 					}
-					g.exec(c, c.Class)
 				}
 			}
 		}
